@@ -12,6 +12,7 @@ of the reference answers:
                         (what the real code returned) has exactly one representative per class;
 * `lcs g sg`            size of the maximum common induced subgraph and all of them (partial maps
                         as sorted lists of `[p t]` pairs);
+* `subiso g sg`, `isiso g sg`  the boolean questions `subgraph_is_isomorphic` / `is_isomorphic`;
 * `lcssym g sg out`     the size, and whether `out` is sound and covers every maximum common
                         induced subgraph up to a symmetry of the pattern.
 -/
@@ -58,5 +59,12 @@ def answerLcsSym (g sg : Graph) (out : List Map) : String :=
   else
     let sub := out.all (fun m => full.contains m)
     "size=" ++ encNat k ++ " bad sub=" ++ encBool sub
+
+/-- `subgraph_is_isomorphic`: is there an induced subgraph isomorphism at all? -/
+def answerSubIso (g sg : Graph) : String := encBool (!(allIsos g sg).isEmpty)
+
+/-- `is_isomorphic`: same number of nodes and an induced subgraph isomorphism exists -/
+def answerIsIso (g sg : Graph) : String :=
+  encBool (g.keys.length == sg.keys.length && !(allIsos g sg).isEmpty)
 
 end C06
